@@ -36,7 +36,7 @@ RULE = ("a case = LRI/LRU with max_size 1-4 (on_miss in 30%), 0..max_size+1 init
         "public operations over max_size+2 keys, run under several deterministic schedules that pre-empt before chosen "
         "bytecodes executed inside cacheutils.py (random 0-3 pre-emptions; every 10th case: EVERY single pre-emption "
         "position of one thread; every 10th case: a same-key check-then-act race template swept the same way; 6 (quick) / 120 "
-        "(thorough) two-thread one-operation programs on the full grid of <= 2 pre-emptions; thorough also: every ordered pair of 19 representative operations on a full cache over that grid); observed per schedule: each thread's results, dict(cache), len, "
+        "(thorough) two-thread one-operation programs on the full grid of <= 2 pre-emptions; every 10th case one of the shapes {3 threads on one key, on_miss re-entrancy, LRU reads racing evictions, copy() racing writers} swept over every pre-emption position; thorough also: every ordered pair of 19 representative operations on a full cache over that grid AND over every single pre-emption position (complete)); observed per schedule: each thread's results, dict(cache), len, "
         "eviction order by probing with fresh keys, order of outermost lock acquisitions.  non-trivial = some schedule "
         "actually switched threads inside cacheutils AND (a thread blocked on the lock held by a pre-empted thread, or "
         ">= 2 distinct outcomes were seen); distinct = distinct canonical case hash")
@@ -264,6 +264,55 @@ def _race_case(rng):
             "threads": [ta, tb] if a == 0 else [tb, ta], "scheds": _sys_scheds(a, 1 - a)}
 
 
+def _shape_case(rng, i):
+    """thread shapes named in the property's mechanism list, each swept over EVERY single
+    pre-emption position of one thread (the others run inside the window):
+      0 three threads on one key            1 on_miss re-entrancy (lookup -> on_miss -> self[key] = ...)
+      2 LRU reads racing evictions          3 copy() racing writers"""
+    shape = i % 4
+    mx = rng.choice([1, 2, 2, 3])
+    init = [[0, 1], [1, 2], [5, 3]][:mx]
+    v = lambda: 10 + rng.randrange(30)
+    if shape == 0:
+        k = rng.choice([0, 2])
+        pool = [["setdefault", k, v()], ["set", k, v()], ["get", k], ["getd", k, v()], ["del", k], ["pop", k],
+                ["popd", k, v()], ["update", [[k, v()]], "list"], ["in", k], ["popitem"], ["len"], ["copy"]]
+        threads = [[rng.choice(pool)], [rng.choice(pool)], [rng.choice(pool)]]
+        om = rng.choice([0, 0, 1])
+        kind = rng.choice(["LRI", "LRU"])
+    elif shape == 1:
+        k = rng.choice([2, 3])                       # absent: the lookup goes through on_miss
+        threads = [[rng.choice([["get", k], ["getd", k, v()], ["setdefault", k, v()]])],
+                   [rng.choice([["set", k, v()], ["del", k], ["clear"], ["get", k], ["pop", k], ["popitem"],
+                                ["setdefault", k, v()], ["update", [[k, v()], [4, v()]], "dict"]])] +
+                   ([rng.choice([["get", k], ["len"], ["in", k]])] if rng.random() < 0.5 else [])]
+        om, kind = 1, rng.choice(["LRI", "LRU"])
+    elif shape == 2:
+        threads = [[["get", 0]] + ([["get", 1]] if mx > 1 and rng.random() < 0.5 else []),
+                   [["set", 2, v()]] + ([["set", 3, v()]] if rng.random() < 0.5 else [])]
+        om, kind = rng.choice([0, 0, 1]), "LRU"
+    else:
+        threads = [[["copy"]],
+                   [rng.choice([["set", 2, v()], ["set", 0, v()], ["del", 0], ["clear"], ["popitem"], ["pop", 0],
+                                ["update", [[2, v()], [3, v()]], "iter"], ["setdefault", 2, v()], ["get", 0]])] +
+                   ([["set", 3, v()]] if rng.random() < 0.4 else [])]
+        om, kind = rng.choice([0, 0, 1]), rng.choice(["LRI", "LRU"])
+    a = rng.randrange(len(threads))
+    b = (a + 1 + rng.randrange(len(threads) - 1)) % len(threads)
+    return {"kind": kind, "max": mx, "on_miss": om, "init": init, "threads": threads, "scheds": _sys_scheds(a, b)}
+
+
+def _all_pairs_sweeps():
+    """thorough tier: EVERY ordered pair of the 19 representative operations, thread 0 pre-empted at
+    EVERY opcode boundary (one pre-emption), thread 1 runs in the window -- complete, no stride"""
+    i = 0
+    for a in GRID_OPS:
+        for b in GRID_OPS:
+            i += 1
+            yield {"kind": "LRI" if i % 2 else "LRU", "max": 2, "on_miss": 1 if i % 3 == 1 else 0,
+                   "init": [[0, 1], [1, 2]], "threads": [[a], [b]], "scheds": _sys_scheds(0, 1)}
+
+
 def _all_pairs_grids():
     """thorough tier: EVERY ordered pair of the 19 representative operations, one per thread, on a
     full cache (max_size 2, class and on_miss alternating), over the grid of <= 2 pre-emptions"""
@@ -279,11 +328,18 @@ def generate(rng, tier, n):
     if tier == "thorough":
         for c in _all_pairs_grids():
             yield c
+        for c in _all_pairs_sweeps():
+            yield c
+        for i in range(200):
+            yield _shape_case(rng, i)
     for _ in range(6 if tier == "quick" else 120):
         yield _grid_case(rng, 300 if tier == "quick" else 2500)
     for i in range(n):
         if i % 10 == 7:
             yield _race_case(rng)
+            continue
+        if i % 10 == 9:
+            yield _shape_case(rng, i // 10)
             continue
         c = _gen_program(rng, tier)
         nth = len(c["threads"])
